@@ -669,9 +669,37 @@ func (w *World) newSite(second bool) *authboss.Authboss {
 			return true, nil
 		})
 	}
-	if err := ab.Init(cfg.Modules...); err != nil {
-		panic("sim: authboss init: " + err.Error())
+	registerAppHooks := func() {
+		if cfg.AppAuthHook && !second {
+			// the application answers every completed login itself (a forced
+			// password change page, say): After(EventAuth), handled=true
+			ab.Events.After(authboss.EventAuth, func(rw http.ResponseWriter, r *http.Request, handled bool) (bool, error) {
+				if handled {
+					return false, nil
+				}
+				w.appHookRan.Add(1)
+				http.Redirect(rw, r, "/app/after-login", http.StatusFound)
+				return true, nil
+			})
+		}
 	}
+	initModules := func() {
+		if err := ab.Init(cfg.Modules...); err != nil {
+			panic("sim: authboss init: " + err.Error())
+		}
+	}
+	// the 2FA / expire set-ups may be wired before or after Init
+	if !cfg.SetupBeforeInit {
+		initModules()
+	}
+	defer func() {
+		if cfg.SetupBeforeInit {
+			initModules()
+		}
+		// the application's own event handlers come last: the modules'
+		// handlers must have run before one of them answers the request
+		registerAppHooks()
+	}()
 	for _, s := range cfg.Setups {
 		var err error
 		switch s {
